@@ -52,6 +52,18 @@ theorem padLeft_length (w : Nat) (c : Char) (s : List Char) :
 theorem padLeft_suffix (w : Nat) (c : Char) (s : List Char) : s <:+ padLeft w c s :=
   ⟨_, rfl⟩
 
+/-- left-aligned fields (`%-Nd`, `:<N`): same width law, the text is kept as a PREFIX and only the pad character follows -/
+theorem padRight_length (w : Nat) (c : Char) (s : List Char) :
+    (padRight w c s).length = max w s.length := by
+  simp [padRight]; omega
+
+theorem padRight_prefix (w : Nat) (c : Char) (s : List Char) :
+    s <+: padRight w c s ∧ ∀ x ∈ (padRight w c s).drop s.length, x = c := by
+  refine ⟨⟨_, rfl⟩, ?_⟩
+  intro x hx
+  simp [padRight] at hx
+  exact hx.2
+
 /-- `%0Nd` / `:0Nd` on a negative number: the sign comes first, then zeros, then the digits -/
 theorem zero_pad_sign_first (w : Nat) (n : Int) (h : n < 0) :
     zeroPadDec w n = '-' :: (List.replicate (w - 1 - (renderNat n.natAbs).length) '0' ++ renderNat n.natAbs) := by
